@@ -23,76 +23,3 @@ Lemma enum_order : go_enum_MatchOperator = map mop_go all_mops
   /\ go_enum_BinaryOperator = ["BinaryOpAnd"; "BinaryOpOr"] /\ go_enum_UnaryOperator = ["UnaryOpNot"].
 Proof. repeat split; reflexivity. Qed.
 
-(* NotPresentDisposition *)
-Lemma not_present_table : forall op, assoc (mop_go op) go_not_present = Some (bool_go (disposition op)).
-Proof. intros []; reflexivity. Qed.
-Lemma not_present_default : assoc "default" go_not_present = Some "false".
-Proof. reflexivity. Qed.
-
-(* String() of the operators, the collection operators and binding modes: the texts ExpressionDump prints *)
-Lemma match_operator_names : forall op, assoc (mop_go op) go_string_MatchOperator = Some (mop_name op).
-Proof. intros []; reflexivity. Qed.
-Lemma binary_operator_names :
-  assoc "BinaryOpAnd" go_string_BinaryOperator = Some (bop_name BAnd) /\ assoc "BinaryOpOr" go_string_BinaryOperator = Some (bop_name BOr)
-  /\ assoc "UnaryOpNot" go_string_UnaryOperator = Some "Not".
-Proof. repeat split; reflexivity. Qed.
-Lemma collection_names :
-  assoc "CollectionOpAll" go_const_CollectionOperator = Some (cop_name CAll) /\ assoc "CollectionOpAny" go_const_CollectionOperator = Some (cop_name CAny)
-  /\ go_const_CollectionBindMode = [("CollectionBindDefault", "Default"); ("CollectionBindIndex", "Index"); ("CollectionBindValue", "Value"); ("CollectionBindIndexAndValue", "Index & Value")].
-Proof. repeat split; reflexivity. Qed.
-
-(* kind -> coercion function and kind -> equality function: the model's scalar classes *)
-Definition kind_go (k : kind) : string :=
-  match k with
-  | KBool => "reflect.Bool" | KInt => "reflect.Int" | KInt8 => "reflect.Int8" | KInt16 => "reflect.Int16" | KInt32 => "reflect.Int32" | KInt64 => "reflect.Int64"
-  | KUint => "reflect.Uint" | KUint8 => "reflect.Uint8" | KUint16 => "reflect.Uint16" | KUint32 => "reflect.Uint32" | KUint64 => "reflect.Uint64"
-  | KFloat32 => "reflect.Float32" | KFloat64 => "reflect.Float64" | KString => "reflect.String"
-  | KUintptr => "reflect.Uintptr" | KComplex => "reflect.Complex128" | KArray => "reflect.Array" | KChan => "reflect.Chan" | KFunc => "reflect.Func"
-  | KInterface => "reflect.Interface" | KMap => "reflect.Map" | KPtr => "reflect.Ptr" | KSlice => "reflect.Slice" | KStruct => "reflect.Struct"
-  | KUnsafe => "reflect.UnsafePointer" | KInvalid => "reflect.Invalid" end.
-Definition all_kinds := [KInvalid; KBool; KInt; KInt8; KInt16; KInt32; KInt64; KUint; KUint8; KUint16; KUint32; KUint64; KUintptr; KFloat32; KFloat64;
-  KComplex; KArray; KChan; KFunc; KInterface; KMap; KPtr; KSlice; KString; KStruct; KUnsafe].
-Definition coerce_fn_of_class (c : sclass) : string :=
-  match c with SBool => "CoerceBool" | SInt => "CoerceInt64" | SUint => "CoerceUint64" | SF32 => "CoerceFloat32" | SF64 => "CoerceFloat64"
-             | SString | SNone => "expression.Value.Raw" end.
-Definition eq_fn_of_class (c : sclass) : string :=
-  match c with SBool => "doEqualBool" | SInt => "doEqualInt64" | SUint => "doEqualUint64" | SF32 => "doEqualFloat32" | SF64 => "doEqualFloat64"
-             | SString => "doEqualString" | SNone => "nil" end.
-Definition table_or_default (k : string) (l : list (string * string)) : option string :=
-  match assoc k l with Some v => Some v | None => assoc "default" l end.
-Lemma coercion_dispatch : forall k, table_or_default (kind_go k) go_coerce_of_kind = Some (coerce_fn_of_class (sclass_of k)).
-Proof. intros []; reflexivity. Qed.
-Lemma equality_dispatch : forall k, table_or_default (kind_go k) go_equality_fn = Some (eq_fn_of_class (sclass_of k)).
-Proof. intros []; reflexivity. Qed.
-
-(* the strconv call behind each Coerce* function: function, base, bit size - what `coerce` calls *)
-Lemma coerce_calls :
-  assoc "CoerceInt64" go_coerce_calls = Some ("strconv.ParseInt", [0; 64]%Z)
-  /\ assoc "CoerceUint64" go_coerce_calls = Some ("strconv.ParseUint", [0; 64]%Z)
-  /\ assoc "CoerceBool" go_coerce_calls = Some ("strconv.ParseBool", []%Z)
-  /\ assoc "CoerceFloat32" go_coerce_calls = Some ("strconv.ParseFloat", [32]%Z)
-  /\ assoc "CoerceFloat64" go_coerce_calls = Some ("strconv.ParseFloat", [64]%Z).
-Proof. repeat split; reflexivity. Qed.
-Lemma coerce_uses_those_calls : forall k raw,
-  coerce k raw = match sclass_of k with
-                 | SBool => match parse_bool raw with POk b => Ok (LBool b) | PErr e => Err (perr_c e) end
-                 | SInt => match parse_int raw 0 64 with POk z => Ok (LInt z) | PErr e => Err (perr_c e) end
-                 | SUint => match parse_uint raw 0 64 with POk z => Ok (LUint z) | PErr e => Err (perr_c e) end
-                 | SF32 => match parse_float raw 32 with POk z => Ok (LF32 z) | PErr e => Err (perr_c e) end
-                 | SF64 => match parse_float raw 64 with POk z => Ok (LF64 z) | PErr e => Err (perr_c e) end
-                 | _ => Ok (LStr raw) end.
-Proof. reflexivity. Qed.
-
-(* operator -> (matcher, negated): the pairing evaluateMatchExpression implements *)
-Definition dispatch_of (op : matchop) : string * bool :=
-  match op with OpEq => ("doMatchEqual", false) | OpNeq => ("doMatchEqual", true) | OpIn => ("doMatchIn", false) | OpNotIn => ("doMatchIn", true)
-             | OpIsEmpty => ("doMatchIsEmpty", false) | OpIsNotEmpty => ("doMatchIsEmpty", true)
-             | OpMatches => ("doMatchMatches", false) | OpNotMatches => ("doMatchMatches", true) end.
-Lemma match_dispatch : forall op, assoc ("grammar." ++ mop_go op) go_match_dispatch = Some (dispatch_of op).
-Proof. intros []; reflexivity. Qed.
-
-(* getDefaultOptions *)
-Lemma default_options :
-  go_default_options = [("withMaxExpressions", "0"); ("withTagName", "bexpr"); ("withUnknown", "nil")]
-  /\ o_max default_opts = 0%N /\ o_tag default_opts = "bexpr" /\ o_unknown default_opts = None.
-Proof. repeat split; reflexivity. Qed.
